@@ -60,3 +60,19 @@ def murphyLines (fn : Option Functional) (α : K) (etas : List K) (ys : List K)
 
 end Plot
 end MD
+
+namespace MD
+section BiasPlot
+variable {K : Type} [Zero K]
+
+/-- `plot_bias`, one model: the points joined by the line are the non-null rows of that model's
+`compute_bias` table, in table order — (row, its `bias_mean`) -/
+def biasPoints (rows : List (OutRow K)) : List (OutRow K × K) :=
+  (rows.filter (fun r => !r.key.isNull)).map (fun r => (r, (r.stats.headD ⟨0, 0⟩).mean))
+
+/-- … and the diamond drawn for the null group, at that group's `bias_mean` -/
+def biasNullPoint (rows : List (OutRow K)) : Option K :=
+  (rows.find? (fun r => r.key.isNull)).map (fun r => (r.stats.headD ⟨0, 0⟩).mean)
+
+end BiasPlot
+end MD
